@@ -58,11 +58,20 @@ def gen_case(rng, ctx):
             op["ids"] = [dict(origin=rng.choice(["own", "foreign", "foreign", "never", "none", "none", "huge", "str"]),
                               other=rng.randrange(nb), pick=rng.randrange(100)) for _ in op["evs"]]
         ops.append(op)
-    return dict(backend=backend, nb=nb, order=rng.sample(range(nb), nb), setup=setup, ops=ops, quiet=rng.random() < 0.5,
-                names=bucket_ids(rng, nb))
+    quiet = rng.random() < 0.5
+    return dict(backend=backend, nb=nb, order=rng.sample(range(nb), nb), setup=setup, ops=ops, quiet=quiet,
+                names=bucket_ids(rng, nb), second=(not quiet or backend == "memory") and rng.random() < 0.3)
 
 
 _QUIET = {"store": None}
+
+
+def _dump_one(ds, bid):
+    """metadata and events of ONE bucket (a second handle on the file knows the buckets it made itself; what the other
+    handle re-created since is not its business)"""
+    from ._st import dump_bucket, meta_canon
+    b = ds[bid]
+    return (meta_canon(b.metadata()), sorted(dump_bucket(b), key=lambda t: (t[0] is None, t[0], t[1:])))
 
 
 def _ids(ds, bid):
@@ -118,6 +127,20 @@ def run_case(case, ctx):
         for i, evs in enumerate(case["setup"]):
             if evs:
                 ds[bids[i]].insert([mk_event(s) for s in evs])
+        # a second Datastore object on the SAME file (a maintenance script next to the server): it has a bucket of its own,
+        # created after the first one started; nothing the first one does to ITS buckets may touch it
+        second, sec_skip, SEC = None, set(), "zz-bucket-of-the-second-datastore"
+        if case.get("second") and backend != "memory" and not quiet:
+            ds.buckets()
+            for b_ in bids:
+                ds[b_].get(1)                              # (reads: nothing of the first handle is left pending)
+            second = Store(backend, ctx.tmp, path=st.path)
+            sb = second.ds.create_bucket(SEC, type="ts", client="cs", hostname="hs", data={"second": True})
+            sb.insert([mk_event(dict(s_, data={"uid": 9000 + j})) for j, s_ in enumerate((case["setup"][0] or [case["ops"][0]["ev"]])[:3])])
+            sb.get(1)
+            sec_skip = {SEC}
+            sec0 = _dump_one(second.ds, SEC)
+            ctx.count("histories_next_to_a_second_datastore_on_the_same_file")
         deleted = {}
         never = [10**8]
         created_rank = {bids[i]: r for r, i in enumerate(case["order"])}
@@ -139,7 +162,7 @@ def run_case(case, ctx):
                     ds[fresh].insert([mk_event(s_) for s_ in op["fill"]])
                 bids.append(fresh)
                 created_rank[fresh] = len(created_rank)
-                before = raw_others(raw_view(st)[0], A) if quiet else dump_store(ds, skip={A})
+                before = raw_others(raw_view(st)[0], A) if quiet else dump_store(ds, skip={A} | sec_skip)
                 sub, outcome = op["sub"], "ok"
                 try:
                     if sub == "insert":
@@ -157,7 +180,7 @@ def run_case(case, ctx):
                 except Exception as ex:  # noqa: BLE001 - "or is rejected"
                     outcome = type(ex).__name__
                     ctx.count(f"rejected.{backend}.deleted_target.{sub}")
-                after = raw_others(raw_view(st)[0], A) if quiet else dump_store(ds, skip={A})
+                after = raw_others(raw_view(st)[0], A) if quiet else dump_store(ds, skip={A} | sec_skip)
                 ctx.count(f"ops.{backend}")
                 ctx.count("frame_checks")
                 ctx.count("ops_on_deleted_bucket_id")
@@ -187,7 +210,7 @@ def run_case(case, ctx):
                         if r[4] == str(e_us):
                             co.add("end")
             else:
-                others_before = dump_store(ds, skip={A})
+                others_before = dump_store(ds, skip={A} | sec_skip)
                 # coincidences between the event written and events elsewhere
                 for bid, (_, evs) in others_before.items():
                     for (_, ts, dur, _) in evs:
@@ -263,11 +286,20 @@ def run_case(case, ctx):
                     break
                 continue
             try:
-                others_after = dump_store(ds, skip={A})
+                others_after = dump_store(ds, skip={A} | sec_skip)
             except Exception as ex:  # noqa: BLE001
                 viols.append((f"{backend}:store-unreadable-after-op", f"op#{k} {kind}: {type(ex).__name__}: {ex}"))
                 break
             ctx.count("frame_checks")
+            if second is not None:
+                try:
+                    sec1 = _dump_one(second.ds, SEC)
+                except Exception as ex:  # noqa: BLE001
+                    sec1 = f"unreadable: {type(ex).__name__}: {ex}"
+                if sec1 != sec0:
+                    viols.append((f"{backend}:bucket-of-another-datastore-on-the-same-file-changed",
+                                  f"op#{k} {kind} on {A} (outcome={outcome}): before={sec0!r:.300} after={sec1!r:.300}"))
+                    break
             if origin in ("foreign", "foreign-deleted"):
                 ctx.count("ops_with_foreign_id")
             nt = origin in ("foreign", "foreign-deleted") or bool(co)
@@ -287,5 +319,7 @@ def run_case(case, ctx):
                               f"before={others_before[bid][1]!r:.300} after={others_after.get(bid, (None, None))[1]!r:.300}"))
                 break
         _QUIET["store"] = None
+        if second is not None:
+            second.close(remove=False)
     n = len(case["ops"])
     return viols, dict(sig=None, nontrivial=nontriv > 0, weight=n, nontrivial_weight=nontriv)
